@@ -1,7 +1,7 @@
 (* C09 -- client correlates responses to requests strictly by message ID. *)
 From Coq Require Import ZArith List Bool.
 From Coq.Strings Require Import Byte.
-From SV Require Import Base.Bytes Base.Py Msg.Types Msg.Encode Sess.Model Sess.Drain Sess.Ids Sess.Total Sess.IdsReach.
+From SV Require Import Gen.Sharing Base.Bytes Base.Py Msg.Types Msg.Encode Sess.Model Sess.Drain Sess.Ids Sess.Total Sess.IdsReach.
 Import ListNotations.
 Local Open Scope Z_scope.
 
@@ -58,6 +58,13 @@ Theorem C09_searches_are_outstanding :
   s_state s <> CLOSED -> s_role s = Client -> forall i, In i (s_searches s) -> In i (s_outstanding s).
 Proof. intros d r cs. exact (good_reachable d r cs). Qed.
 
+(* The theorems above are about functions and values; that _session.py (everything a session mutates is reached from the session object) keeps no state
+   between calls and shares none between objects is read off the source by tools/audit.py on every run
+   (Gen/Sharing.v): no memoisation, no module- or class-level container that is written, no mutable default, no
+   attribute written behind a dataclass, no parameter stored without a copy. *)
+Theorem C09_audit_no_state_between_calls : (hidden_state_session = [])%list.
+Proof. exact eq_refl. Qed.
+
 Print Assumptions C09_invariant_initially.
 Print Assumptions C09_searches_are_outstanding.
 Print Assumptions C09_request_ids.
@@ -67,3 +74,4 @@ Print Assumptions C09_request_message_rejected.
 Print Assumptions C09_unknown_id_rejected.
 Print Assumptions C09_retirement.
 Print Assumptions C09_invariant_in_every_reachable_state.
+Print Assumptions C09_audit_no_state_between_calls.
